@@ -1167,9 +1167,20 @@ class Interp:
     def havoc_writes(self, st, fr, key, loopvars=()):
         names, subs, attrs, mut = self.write_set(st.body)
         specs = self.cfg.extra.get('havoc', {}).get(key, {})
+        frame_ok = set(self.cfg.extra.get('frame', {}).get(key, ()))
         entry = {}
+        self._frame_checks = getattr(self, '_frame_checks', {})
+        self._frame_checks[key] = []
         for n in sorted(names | subs | {m for m in mut if isinstance(m, str)}):
             if n in loopvars:
+                continue
+            if n in frame_ok and n not in names:
+                # the sidecar claims the loop only writes this object on paths that leave the loop; checked at the back edge
+                f = fr
+                while f is not None and n not in f.l:
+                    f = f.parent
+                if f is not None:
+                    self._frame_checks[key].append((n, f.l[n], self._fingerprint(f.l[n])))
                 continue
             f = fr
             while f is not None and n not in f.l:
@@ -1201,12 +1212,28 @@ class Interp:
                 raise OutOfSubset(f'loop writes attribute of {kind_of(ov)}')
         return entry
 
+    def _fingerprint(self, v, depth=0):
+        if isinstance(v, Obj) and depth < 3:
+            return ('obj', tuple((k, self._fingerprint(x, depth + 1)) for k, x in sorted(v.f.items())))
+        if isinstance(v, Arr):
+            return ('arr', id(v), id(v.fn), id(v.n) if not isinstance(v.n, int) else v.n)
+        if isinstance(v, (list, dict)):
+            return ('box', id(v), len(v))
+        return ('val', id(v))
+
+    def check_frame(self, key):
+        for n, obj, fp in getattr(self, '_frame_checks', {}).get(key, []):
+            if self._fingerprint(obj) != fp:
+                raise OutOfSubset(f'loop {key} modifies {n} on a path that returns to the loop head (sidecar frame claim is wrong)')
+
     def eval_invs(self, key, fr, extra_env=None):
         inv = self.cfg.invariants.get(key)
         if inv is None:
             raise OutOfSubset(f'loop {key} has symbolic trip count and no invariant in the sidecar')
         out = []
-        f2 = Frame(fr.mod, dict(extra_env or {}), fr.func, parent=fr, self_obj=fr.self_obj)
+        env0 = dict(self.cfg.extra.get('ghost', {}))
+        env0.update(extra_env or {})
+        f2 = Frame(fr.mod, env0, fr.func, parent=fr, self_obj=fr.self_obj)
         f2.spec_mod = self.cfg.extra.get('spec_mod')
         for j, s in enumerate(inv):
             out.append((j, s, self.eval_str(s, f2)))
@@ -1275,6 +1302,7 @@ class Interp:
             except BreakSignal:
                 return
             fr.l[ivar] = ops.arith('+', k, 1)
+            self.check_frame(key)
             for j, s, v in self.eval_invs(key, fr, env):
                 ctx.prove(v, f'{pfx}.inv{j}.preserved', {'inv': s})
             raise PathEnd()
@@ -1306,6 +1334,7 @@ class Interp:
                 pass
             except BreakSignal:
                 return
+            self.check_frame(key)
             for j, s, v in self.eval_invs(key, fr, env):
                 ctx.prove(v, f'{pfx}.inv{j}.preserved', {'inv': s})
             raise PathEnd()
